@@ -9,6 +9,7 @@ import (
 )
 
 func seekT(sub, tgt string) model.Op   { return model.Op{K: "seekT", Sub: sub, Tgt: tgt} }
+func pullW(sub string, max int) model.Op { return model.Op{K: "pull", Sub: sub, Max: max, Tgt: "wait"} }
 func reconfig(sub, what string) model.Op { return model.Op{K: "reconfig", Sub: sub, Tgt: what} }
 func snap(sub, name string) model.Op   { return model.Op{K: "snap", Sub: sub, Name: name} }
 func seekS(sub, name string) model.Op  { return model.Op{K: "seekS", Sub: sub, Name: name} }
@@ -245,6 +246,7 @@ func init() {
 					tick("lease-"), tick("lease+"), tick("lease++"),
 					pub1("T0", "", 0),
 					reconfig("S0", "retry:30s-max40s"), reconfig("S0", "retry:none"),
+					pullW("S0", 10),
 				},
 			})
 		}
@@ -382,6 +384,21 @@ func init() {
 					job("delete-expired-subscriptions", time.Hour, 100), job("prune-expired-deliveries", 0, 100),
 					mkSub("S0"),
 					tick("ret-"), tick("ret+"), tick("ttl-"), tick("ttl+"), tick("lease+"),
+				},
+			},
+			{
+				// blocking pulls that are still waiting when a lease lapses / the
+				// retention ends / the delay ends
+				ID: "C14/blocking-pulls", Prop: "C14", Depth: d(tier, 5, 6), Drain: true,
+				Cfg: model.Cfg{Topics: []string{"T0"}, Subs: []model.SubCfg{
+					{Name: "S0", Topic: "T0", Retention: 15 * time.Second},
+					{Name: "S1", Topic: "T0", Retention: 100 * time.Second, Delay: 20 * time.Second, MinBackoff: 30 * time.Second},
+				}},
+				Alphabet: []model.Op{
+					pub1("T0", "", 0),
+					pull("S0", 10), pullW("S0", 10), pull("S1", 10), pullW("S1", 10),
+					ack("S0", "oldest"), modack("S1", "all", 0), seekT("S0", "before-all"),
+					tick("+5s"), tick("lease-"), tick("ret-"),
 				},
 			},
 			{
